@@ -64,6 +64,7 @@ type FuncContract struct {
 	Partial    bool    // paths reaching an instruction outside the subset are abandoned (listed as unchecked)
 	CallSites  []*CallSiteSpec
 	StopAfter  []string
+	NotClaimed [][3]string // obligation kind, fragment of its source line, reason
 }
 
 // CallSiteSpec is an assertion checked at every call of Callee inside the function, in the caller's scope;
@@ -117,7 +118,7 @@ var ckeywords = map[string]bool{
 	"ensures": true, "modifies": true, "nopanic": true, "nooverflow": true, "pure": true,
 	"trusted": true, "inline": true, "loop": true, "use": true, "split": true, "tier": true,
 	"induct": true, "ih": true, "allocbound": true, "abstract": true, "ghost": true, "uninterp": true, "where": true, "import": true, "globalinv": true, "slow": true,
-	"partial": true, "callsite": true, "ghostvar": true, "stopafter": true,
+	"partial": true, "callsite": true, "ghostvar": true, "stopafter": true, "notclaimed": true,
 }
 
 func parseParams(s string) ([]Param, error) {
@@ -444,6 +445,16 @@ func loadContracts(path string) (*PkgContracts, error) {
 					}
 				case "nopanic":
 					curF.NoPanic = true
+				case "notclaimed":
+					// notclaimed <obligation> <reason>: an obligation that is generated but deliberately left undecided
+					// (the obligation is named by its kind and a fragment of its source line, not by ordinal)
+					ob, tail, _ := strings.Cut(rest, " ")
+					tail = strings.TrimSpace(tail)
+					if !strings.HasPrefix(tail, "\"") || strings.Count(tail, "\"") < 2 {
+						return nil, fail(l, "notclaimed: expected 'notclaimed <kind> \"<source fragment>\" <reason>'")
+					}
+					j := strings.Index(tail[1:], "\"") + 1
+					curF.NotClaimed = append(curF.NotClaimed, [3]string{ob, tail[1:j], strings.TrimSpace(tail[j+1:])})
 				case "partial":
 					curF.Partial = true
 				case "stopafter":
